@@ -27,6 +27,8 @@ type Property struct {
 	// EvalCounter names the trace counter reported as "evaluations".
 	EvalCounter string
 	Components  map[string]string // real / stub
+	// Pool names the key pool for a tier (nil: default pool).
+	Pool func(tier string) [3]uint64
 	// NoRecheck: re-execution fingerprints are not compared (C17: output that depends on Go map iteration order
 	// is itself the violation class being looked for).
 	NoRecheck bool
@@ -58,6 +60,7 @@ func seqCases(master uint64, n int, variantsOf func(i int) int) []Case {
 // ExecPlan runs one plan to completion and returns its trace. Any panic escaping the code under test is a
 // C19 violation (asserted in every profile).
 func ExecPlan(p *Plan, pool *Pool, verbose bool) (t *core.Trace) {
+	pool = PoolFor(p.Pool)
 	t = core.NewTrace()
 	t.Verbose = verbose
 	prop := Properties[p.Property]
@@ -167,7 +170,7 @@ func init() {
 		Cases: func(master uint64, tier string) []Case {
 			n := 2400
 			if tier == "thorough" {
-				n = 40000
+				n = 400000
 			}
 			return seqCases(master, n, nil)
 		},
@@ -189,7 +192,7 @@ func init() {
 		Cases: func(master uint64, tier string) []Case {
 			n := 1200
 			if tier == "thorough" {
-				n = 25000
+				n = 200000
 			}
 			return seqCases(master, n, nil)
 		},
@@ -212,7 +215,7 @@ func init() {
 		Cases: func(master uint64, tier string) []Case {
 			n, sweeps := 1400, 10
 			if tier == "thorough" {
-				n, sweeps = 30000, 160
+				n, sweeps = 300000, 1500
 			}
 			cs := seqCases(master, n, nil)
 			sw := seqCases(master^0x5eed, sweeps, func(int) int { return FoldSweepVariants })
